@@ -226,6 +226,8 @@ class _ControlApi(_Api):
             d = rfc6455.decode_one(w[0])
             out += payload_facts(w[0], d, self.opcode, 0, a.data)
             out.append(('control-payload-at-most-125', d.plen <= 125))
+        W = ip.st.ghost['W']
+        out.append(('closing-flag-untouched', ip.st.get(W.state, 'closing') == old.get(W.state, 'closing')))
         return out
 
 
@@ -347,7 +349,8 @@ class _DataApi(_Api):
         if not self.accepted(a):
             return [('never-returns-normally-for-wrong-type', BoolVal(False))]
         w = wire_since(ip, old)
-        out = [('exactly-one-frame-written', BoolVal(len(w) == 1))]
+        out = [('exactly-one-frame-written', BoolVal(len(w) == 1)),
+               ('closing-flag-untouched', st.get(W.state, 'closing') == old.get(W.state, 'closing'))]
         if len(w) != 1:
             return out
         d = rfc6455.decode_one(w[0])
